@@ -58,3 +58,20 @@ Definition check_scalar (ks : sig) (ty : tree) (hi hj : cexpr) (diagonal : bool)
   | Ok y => obs_sem_eqb (obs (solve_scalar ks y hi hj diagonal) grid) expected
   | Raise _ => false
   end.
+
+(** ** solve_sylvester_2nd_quant (l. 130-187): one entry of the matrix-valued solution for the
+    block index (index[0], index[1]).  [same] = (index[0] == index[1]); levels [hi] = eigs_A[i],
+    [hj] = eigs_B[j].  Entries with [same && i < j] are minus the adjoint of the transposed entry,
+    which was computed from Y[j,i] with the levels exchanged; only the matrix-diagonal entries of a
+    diagonal block use the Hermitian half-computation. *)
+Definition solve_entry (ks : sig) (same : bool) (i j : nat) (yij yji : nof) (hi hj : cexpr) : nof :=
+  if negb same || (j <=? i)%nat
+  then solve_scalar ks yij hi hj (same && (i =? j)%nat)
+  else neg (adj (solve_scalar ks yji hj hi false)).
+
+Definition check_entry (ks : sig) (same : bool) (i j : nat) (tij tji : tree) (hi hj : cexpr)
+           (grid : list (list Z)) (expected : list (list Z * list (option G))) : bool :=
+  match teval ks tij, teval ks tji with
+  | Ok yij, Ok yji => obs_sem_eqb (obs (solve_entry ks same i j yij yji hi hj) grid) expected
+  | _, _ => false
+  end.
